@@ -172,9 +172,12 @@ Proof.
     unfold all_jobs in *. rewrite RU, ER. apply in_app_or in J1. apply in_or_app. destruct J1 as [J1|J1]; auto. left.
     destruct (adv_retr_part (length (x_retr_q st)) (x_head_offs (adv_input (d_off bs) (set_parser_bs bs st))) (x_retr_q st) j J1) as [P|P]; auto.
     exfalso. apply (N0 j P). exact J2.
-  - rewrite PB. intros u Hu Qu Cu. apply (ORPH (d_bit bs + HDR_MIN)); auto.
-    + unfold dbs_ok, HDR_MIN in *. lia.
-    + intros u0 H0 Q0 C0. destruct (E u0 H0 Q0 C0) as [L|L]; auto. right. unfold HDR_MIN in *. lia.
+  - intros u Hu Qu Cu. unfold orph. rewrite NX.
+    destruct (advance_unords cfg bs st u IV Hu) as [H0|(u0 & H0 & Eu & LT)].
+    + destruct (E u H0 Qu Cu) as [L|[L|L]]; [left; apply la_advance; auto|right; left; exact L|right; right].
+      clear - L H3a. lia.
+    + right. right. subst u. unfold u_set_complete in Qu |- *. cbn [u_inq u_base] in Qu |- *. rewrite Forall_forall in UO.
+      destruct (UO u0 H0) as (O1 & _). destruct (O1 Qu) as (Oe & Ob & _). clear - Oe Ob LT. unfold dbs_ok in Oe. lia.
   - rewrite PDn, PD. discriminate.
   - intros _. rewrite NX, PB. auto.
   - intros _. rewrite PB. auto.
@@ -224,7 +227,8 @@ Proof.
   - intros o Ho S. apply LA. auto.
   - intros j Hj J. exfalso. rewrite <- AJ in Hj. pose proof (no_masters_jm _ j M1 Hj) as Z. xs in Z. congruence.
   - intros u Hu Cu. destruct (ST u Hu) as (u0 & H0 & [->|(_ & _ & ->)]); [auto|simpl in Cu; discriminate].
-  - intros u Hu Qu Cu. apply (OB (d_bit (x_parser_bs s) + HDR_MIN)); auto.
+  - intros u Hu Qu Cu. destruct (ST u Hu) as (u0 & H0 & [->|(_ & _ & ->)]); [|simpl in Qu; discriminate].
+    destruct (E u0 H0 Qu Cu) as [L|L]; [left; apply LA; auto|right; exact L].
   - rewrite PD. discriminate.
   - exact G.
   - exact K.
@@ -476,8 +480,8 @@ Proof.
     - constructor; xs; auto. intro x. unfold estage. xs. rewrite E, !run_ejobs_app, run_ejobs_cons. simpl. auto.
     - xs. auto.
     - intro x. unfold all_jobs. xs. rewrite E, !run_jobs_app, run_jobs_cons. simpl. tauto. }
-  assert (F1 : x_failed s1 = None /\ x_parser_bs s1 = x_parser_bs st) by (subst s1; xs; auto).
-  destruct F1 as (NF1 & PB1). clear OW I D ES1 E.
+  assert (F1 : x_failed s1 = None /\ x_parser_bs s1 = x_parser_bs st /\ x_next s1 = x_next st) by (subst s1; xs; auto).
+  destruct F1 as (NF1 & PB1 & NX1). clear OW I D ES1 E.
   set (aend := att_end att s1) in *. clearbody aend.
   match type of H with (if ?c then _ else _) = _ => destruct c eqn:CC; [|discriminate] end. bool_hyps.
   assert (I2 : inv (detach att s1)) by (eapply inv_view; [apply view_detach|auto]).
@@ -485,9 +489,9 @@ Proof.
   { eapply own_view; [| | |exact OW1]; oview_tac. }
   assert (E2 : masters (detach att s1) = 0%nat /\ nparse (detach att s1) = 0%nat /\ x_parse_token (detach att s1) = false /\
                x_parsing_done (detach att s1) = false /\ x_parser_bs (detach att s1) = x_parser_bs st /\
-               x_failed (detach att s1) = None)
+               x_failed (detach att s1) = None /\ x_next (detach att s1) = x_next st)
     by (unfold masters, all_jobs, nparse in *; autorewrite with xf; auto 10).
-  set (s2 := detach att s1) in *. destruct E2 as (M2 & N2 & T2 & PD2 & PB2 & NF2). clearbody s2. clear I1 OW1.
+  set (s2 := detach att s1) in *. destruct E2 as (M2 & N2 & T2 & PD2 & PB2 & NF2 & NX2). clearbody s2. clear I1 OW1.
   set (bs := res_bs r) in *.
   assert (HD : x_head_offs s2 <= d_off bs).
   { assert (x_head_offs s2 <= d_off (x_parser_bs s2)) by (apply I2; auto). rewrite PB2 in *.
@@ -522,10 +526,10 @@ Proof.
   - (* a block header *)
     match type of H with (if ?c then _ else _) = _ => destruct c eqn:NB; [|discriminate] end. inversion H; subst st'. clear H.
     simpl in EV.
-    assert (GAP : d_bit (x_parser_bs s2) + HDR_MIN <= d_bit b) by (rewrite PB2; exact EV).
+    assert (GAP : x_next s2 + HDR_MIN <= d_bit b) by (rewrite NX2; exact EV).
     assert (LTP : Forall (fun h => hb h < d_bit b) (x_order_q s2)).
     { destruct OS2 as [_ LE]. eapply Forall_impl; [|exact LE]. simpl. intros h Hh.
-      pose proof (o_next _ _ _ OP2 PD2) as Hn. clear - Hh Hn GAP. unfold HDR_MIN in *. lia. }
+      clear - Hh GAP. unfold HDR_MIN in *. lia. }
     set (s4 := set_par ps (set_next (d_bit b) s3)).
     assert (LA4 : forall x k, la s4 x k <-> la s3 x k) by (intros; apply la_ext; subst s4; unfold estage; xs; reflexivity).
     assert (AJ4 : all_jobs s4 = all_jobs s3) by (subst s4; unfold all_jobs; xs; reflexivity).
@@ -547,7 +551,9 @@ Proof.
       - intros o Ho S. apply LA4. apply B; auto.
       - intros j Hj J. exfalso. rewrite (no_masters_jm s3 j M3 Hj) in J. discriminate.
       - exact D.
-      - intros u Hu Qu Cu. rewrite <- PB3. destruct (E u Hu Qu Cu) as [L|L]; [left; apply LA4; auto|right; auto].
+      - intros u Hu Qu Cu. destruct (E u Hu Qu Cu) as [L|[L|L]]; [left; apply LA4; auto|right; left|right; right].
+        + rewrite NX4, PB4. rewrite NX3 in L. exact (N.le_trans _ _ _ L NXB).
+        + replace (x_head_offs s4) with (x_head_offs s3) by (subst s4; xs; reflexivity). exact L.
       - discriminate.
       - intros _. rewrite NX4, PB4. apply N.le_refl.
       - intros _. exact OKB.
@@ -560,7 +566,9 @@ Proof.
       assert (X : la s3 (fst (u_base u)) 0 \/ fst (u_base u) < d_bit b).
       { apply (ORPH (d_bit b)); auto.
         - clear - NB. unfold dbs_norm in NB. lia.
-        - intros u0 Hu0 Q0 C0. destruct (o_u2 _ _ _ OP2 u0 Hu0 Q0 C0) as [L|L]; auto. right. exact (N.lt_le_trans _ _ _ L GAP). }
+        - intros u0 Hu0 Q0 C0. destruct (o_u2 _ _ _ OP2 u0 Hu0 Q0 C0) as [L|[L|L]]; auto; right.
+          + clear - L GAP. unfold HDR_MIN in GAP. lia.
+          + clear - L HD NB. unfold dbs_norm in NB. lia. }
       destruct X as [L|L]; [left; apply LA4; auto|right; auto]. }
     exact (own_parse_ok cfg lv crc s4 CA I4 M4 N4 T4 PD4 NB4 NX4 OW4 SRT4 LTP4 ORB4).
 Qed.
